@@ -246,10 +246,16 @@ fn parse_tz_string_rule(
         b'J' => {
             cursor.read_exact(1).expect(BUG_MSG);
             let day = parse_int(cursor.read_while(|c: &u8| c.is_ascii_digit()))?;
+            if !(1..=365).contains(&day) {
+                return Err(TimeZoneError::InvalidTzFile("Invalid rule day in footer"));
+            }
             RuleDay::JulianDayWithoutLeap(day)
         }
         byte if byte.is_ascii_digit() => {
-            let day = parse_int(cursor.read_while(|c: &u8| c.is_ascii_digit())).expect(BUG_MSG);
+            let day = parse_int(cursor.read_while(|c: &u8| c.is_ascii_digit()))?;
+            if day > 365 {
+                return Err(TimeZoneError::InvalidTzFile("Invalid rule day in footer"));
+            }
             RuleDay::JulianDayWithLeap(day)
         }
         b'M' => {
@@ -262,6 +268,9 @@ fn parse_tz_string_rule(
             cursor.read_exact(1)?;
             let day = parse_int(cursor.read_while(|c| c.is_ascii_digit()))?;
 
+            if !(1..=12).contains(&month) || !(1..=5).contains(&week) || day > 6 {
+                return Err(TimeZoneError::InvalidTzFile("Invalid rule day in footer"));
+            }
             RuleDay::MonthWeekDay(month, week, day)
         }
         _ => return Err(TimeZoneError::InvalidTzFile("Invalid footer")),
